@@ -15,6 +15,9 @@ structure NDrv where
   toks : List (Nat × Bytes × Nat) := []
   /-- a same-instant interleaving the model does not reproduce was observed: stop comparing -/
   unmodelled : Bool := false
+  /-- `(node, waiter)` of `bootstrapped()` calls whose caller gave up (`api <k> cancel`): the handler
+  still resolves them, nobody is there to see it -/
+  cancelled : List (Nat × Nat) := []
 
 def NDrv.get? (d : NDrv) (k : Nat) : Option DState := (d.nodes.find? (·.1 = k)).map (·.2)
 
@@ -139,7 +142,9 @@ def canonEvents (evs : List (Nat × Nat × DEv)) : List (Nat × Nat × DEv) :=
     own ++ resSorted ++ others
 
 def renderEvents (d : NDrv) (evs : List (Nat × Nat × DEv)) : NDrv × String :=
-  let evs := canonEvents evs
+  let evs := (canonEvents evs).filter fun e => match e.2.2 with
+    | .resolved i => !d.cancelled.contains (e.2.1, i)
+    | _ => true
   let (d, parts, _) := evs.foldl (fun (acc : NDrv × List String × Option Nat) e =>
     let (d, parts, lastT) := acc
     let (d, txt) := evText d e.2.1 e.2.2
@@ -368,6 +373,17 @@ def nodeStep (d : NDrv) (line : String) : NDrv × String :=
     match ks.toNat? with
     | some k =>
       if (d.get? k).isNone then (d, "bad-op") else
+      if what = "cancel" ∧ rest.length = 1 then
+        -- the caller of the oldest pending `bootstrapped()` call gives up (nothing reaches the handler)
+        let r := d.stepAll line t none
+        let d' := r.1
+        match d'.get? k with
+        | some st =>
+          (match st.waiters.find? (fun i => !d'.cancelled.contains (k, i)) with
+           | some i => ({ d' with cancelled := (k, i) :: d'.cancelled }, r.2)
+           | none => r)
+        | none => r
+      else
       let c : Option Cmd := match what, rest with
         | "bootstrapped", [_] => some .checkBootstrap
         | "search", [ih, ann, _] => (id20? ih).map fun ih => .startLookup ih (ann = "1")
